@@ -50,7 +50,7 @@ class C17(Prop):
         return out
 
     def project(self, body):
-        return kinds(body.split(" ")[0]) if body.startswith("o=") else body
+        return kinds(tg.parse_head(body)) if body.startswith("o=") else body
 
     def oracle(self, case, lines, model_lines=None):
         closed = False
@@ -70,14 +70,14 @@ class C17(Prop):
                 if unsubbed and not v:
                     return {"kind": "open-after-unsubscribe", "event": k, "detail": b}
                 closed = closed or v
-            elif b.startswith("o=") and b.split(" ")[0] != "o=" and closed:
+            elif b.startswith("o=") and not (b == "o=" or b.startswith("o= ")) and closed:
                 return {"kind": "delivery-after-closed", "event": k, "detail": b}
         return None
 
     def nontrivial(self, case, lines):
         vals = set(lines.values())
         return ("closed=0" in vals and "closed=1" in vals) or any(
-            b.startswith("o=") and b.split(" ")[0] != "o=" for b in vals)
+            b.startswith("o=") and not (b == "o=" or b.startswith("o= ")) for b in vals)
 
     def shrink_candidates(self, case):
         return tg.time_shrink(case) if case.suite == "time" else super().shrink_candidates(case)
